@@ -210,6 +210,8 @@ func run(r *core.Run) {
 	}
 	// a swapped search hash in front of an intact envelope, through every searchable reveal entry point
 	hashMutants(r)
+	// something between the search hash and the envelope (splices of stored values, inserted bytes)
+	spliceStream(r)
 	// foreign-key style damage is covered by C02; pure garbage of boundary lengths here
 	for _, l := range []int{0, 1, 3, 4, 8, 11, 12, 13, 17, 18, 19, 144, 145, 146, 157} {
 		for _, fill := range []byte{'"', '%', 0, 0xff} {
